@@ -843,7 +843,7 @@ def m_excl_default_list(c):
     """exclude_types in the default list mode: the difflib pass keeps ONE report of a non-excluded item"""
     w = str(c["with_options"])
     return (c["clause"] == "A" and c["exc"] is None and not c["zip"] and bool(c["spec"]["excl"])
-            and any(x in ("excl@leaf", "excl@sub") for x in c["altered"])
+            and any(x.endswith("@leaf") or x.endswith("@sub") for x in c["altered"])
             and "iterable_item_" in w and "values_changed" not in w and "type_changes" not in w)
 
 
@@ -1267,6 +1267,10 @@ def run(ctx):
         ctx.count("corr:%s" % fam)
         ctx.count("corr_result:%s" % ("raised:" + obs[1] if obs[0] == "raised" else ("empty" if not obs[1] else "entries")))
         ctx.count("corr_mode:%s" % ("positional" if zip_ else "default"))
+        ft = features(a, b)
+        k8 = k8_active(sp) and "numeric_key" in ft
+        coll = _cleaning(sp) and "clean_collision" in ft
+        ctx.count("corr_guard:%s" % ("outside(K8 numeric key)" if k8 else "outside(clean-key collision)" if coll else "inside"))
         ctx.count("oracle_validity:opcode_tables", ntab)
         if not tile_ok:
             bad_tiles += 1
